@@ -904,3 +904,50 @@ func zzConnClose() {
 	vAssert(marked, "C05.close-marks-closing")
 	vReach("end")
 }
+
+// ---------------------------------------------------------------- C03 under the scheduler: a handler that is still running
+//
+// The thread-modular dispatcher harness runs each handler to completion before the dispatcher resumes, so it cannot see
+// a later message overtaking a handler that is still running. Here the real handleAsync and the handler goroutines it
+// starts run as coroutines under the bounded scheduler: the first message is a notification whose handler is still
+// running — and whose request may be cancelled meanwhile (peer cancel, broken write) — when the dispatcher gets its
+// next chance; the second message must not be handed to the handler before the first handler has returned.
+type zzSlowHandler struct {
+	first, second  *incomingRequest
+	firstReturned  bool
+	cancelMidRun   bool
+	secondStarted  bool
+}
+
+func (h *zzSlowHandler) Handle(ctx context.Context, req *Request) (any, error) {
+	if req == h.first.Request {
+		if h.cancelMidRun {
+			h.first.cancel(errors.New("cancelled by peer while running"))
+		}
+		vYield() // still running: everybody else gets a chance
+		vYield()
+		h.firstReturned = true
+		return nil, nil
+	}
+	h.secondStarted = true
+	vAssert(h.firstReturned, "C03.later-message-waits-for-the-running-notification-handler")
+	return "result", nil
+}
+
+func zzConnStillRunning() {
+	g := zzFresh() // no lock hooks installed: the state below is concrete
+	h := &zzSlowHandler{first: zzNewReq(0, "notifications/slow"), second: zzNewReq(2, "later/call"), cancelMidRun: vBool("firstCancelledWhileRunning")}
+	c := g.c
+	c.handler = h
+	s := &c.state
+	s.reading = true
+	s.incoming = 2
+	s.incomingByID = map[ID]*incomingRequest{h.second.ID: h.second}
+	s.handlerQueue = []*incomingRequest{h.first, h.second}
+	s.handlerRunning = true
+	vGo(func() { c.handleAsync() })
+	vJoin()
+	vAssert(h.firstReturned && h.secondStarted, "C03.both-messages-handled")
+	vAssert(s.incoming == 0 && len(s.handlerQueue) == 0 && !s.handlerRunning, "C02.token-returned-exactly-once")
+	vReach("end")
+}
